@@ -97,7 +97,18 @@ impl StringPoolBuilder {
             ),
         };
         let mut lengths_and_refcounts = Vec::<(u32, u16)>::new();
-        while let Ok(length) = reader.read_u16::<LittleEndian>() {
+        loop {
+            // Only the end of the stream ends the pool; any other read error
+            // must not be mistaken for it.
+            let length = match reader.read_u16::<LittleEndian>() {
+                Ok(length) => length,
+                Err(ref error)
+                    if error.kind() == io::ErrorKind::UnexpectedEof =>
+                {
+                    break;
+                }
+                Err(error) => return Err(error),
+            };
             let mut length = length as u32;
             let mut refcount = reader.read_u16::<LittleEndian>()?;
             if length == 0 && refcount > 0 {
